@@ -1,9 +1,12 @@
 /-
-Merge strategies on the integer-offset chunks of Hts.Model.Index: every provided strategy returns,
-for a list sorted by begin, a list in which every input chunk is enclosed by some chunk (`EncLaw`);
+Merge strategies for Hts.Model.Index: the strategies are C17's models (Hts.Model.Merge) carried over to
+integer offsets; their enclosure law (Hts.Lemmas.MergeEnc) is transported by `encLaw_lift`, so every
+provided strategy returns, for a list sorted by begin, a list in which every input chunk is enclosed by
+some chunk (`EncLaw`);
 and `MergeChunks s` keeps what completeness needs (`IdxCover`) for every strategy with that law.
 -/
 import Hts.Lemmas.IndexChunks
+import Hts.Lemmas.MergeEnc
 namespace Hts.Model.Index
 
 theorem coveredBy_trans {cs : List Chunk} {c p : Chunk} (h : coveredBy cs c) (hp : c.encloses p) :
@@ -18,107 +21,48 @@ def EncLaw (s : List Chunk → List Chunk) : Prop :=
 theorem encLaw_id : EncLaw id := fun _ _ c hc => ⟨c, hc, Int.le_refl _, Int.le_refl _⟩
 
 namespace Local
+open Hts.Model.Merge in
+theorem vOff_toOff (v : Int) : Hts.Model.Merge.vOff (toOff v) = v := by
+  unfold Hts.Model.Merge.vOff toOff
+  simp only
+  omega
 
-theorem mergeAux_enc (close : Chunk → Chunk → Bool) : ∀ (rest : List Chunk) (cur : Chunk),
-    (∀ x, x ∈ rest → cur.b ≤ x.b) → SortedB rest →
-    ∀ p, (cur.encloses p ∨ ∃ x, x ∈ rest ∧ x.encloses p) → coveredBy (mergeAux close cur rest) p := by
-  intro rest
-  induction rest with
-  | nil =>
-    intro cur _ _ p hp
-    rcases hp with hp | ⟨x, hx, _⟩
-    · exact ⟨cur, by simp [mergeAux], hp⟩
-    · cases hx
-  | cons r rest ih =>
-    intro cur hcur hs p hp
-    have hs' := List.pairwise_cons.1 hs
-    unfold mergeAux
-    split
-    · apply ih
-      · intro x hx; exact hcur x (List.mem_cons_of_mem _ hx)
-      · exact hs'.2
-      · have hrb := hcur r List.mem_cons_self
-        rcases hp with hp | ⟨x, hx, hxp⟩
-        · left
-          unfold Chunk.encloses at *
-          simp only
-          split <;> omega
-        · rcases List.mem_cons.1 hx with rfl | hx
-          · left
-            unfold Chunk.encloses at *
-            simp only
-            split <;> omega
-          · right; exact ⟨x, hx, hxp⟩
-    · rcases hp with hp | ⟨x, hx, hxp⟩
-      · exact ⟨cur, List.mem_cons_self, hp⟩
-      · have := ih r (fun y hy => hs'.1 y hy) hs'.2 p
-          (by
-            rcases List.mem_cons.1 hx with rfl | hx
-            · left; exact hxp
-            · right; exact ⟨x, hx, hxp⟩)
-        obtain ⟨y, hy, hyp⟩ := this
-        exact ⟨y, List.mem_cons_of_mem _ hy, hyp⟩
+theorem ofM_toM (c : Chunk) : ofM (toM c) = c := by
+  unfold ofM toM
+  simp [vOff_toOff]
 
-theorem encLaw_adjacent : EncLaw adjacent := by
-  intro cs hs c hc
-  cases cs with
-  | nil => cases hc
-  | cons x xs =>
-    have hs' := List.pairwise_cons.1 hs
-    unfold adjacent
-    apply mergeAux_enc _ xs x (fun y hy => hs'.1 y hy) hs'.2
-    rcases List.mem_cons.1 hc with rfl | hc
-    · left; exact ⟨Int.le_refl _, Int.le_refl _⟩
-    · right; exact ⟨c, hc, Int.le_refl _, Int.le_refl _⟩
+/-- begin-sortedness carries over to C17's chain form -/
+theorem sortedB_map_toM : ∀ cs : List Chunk, SortedB cs → Hts.Model.Merge.SortedB (cs.map toM) := by
+  intro cs
+  induction cs with
+  | nil => intro _; trivial
+  | cons a as ih =>
+    intro h
+    have h' := List.pairwise_cons.1 h
+    cases as with
+    | nil => trivial
+    | cons b bs =>
+      refine ⟨?_, ih h'.2⟩
+      show Hts.Model.Merge.vOff (toOff a.b) ≤ Hts.Model.Merge.vOff (toOff b.b)
+      rw [vOff_toOff, vOff_toOff]
+      exact h'.1 b List.mem_cons_self
 
-theorem encLaw_compressor (near : Int) : EncLaw (compressor near) := by
-  intro cs hs c hc
-  cases cs with
-  | nil => cases hc
-  | cons x xs =>
-    have hs' := List.pairwise_cons.1 hs
-    unfold compressor
-    apply mergeAux_enc _ xs x (fun y hy => hs'.1 y hy) hs'.2
-    rcases List.mem_cons.1 hc with rfl | hc
-    · left; exact ⟨Int.le_refl _, Int.le_refl _⟩
-    · right; exact ⟨c, hc, Int.le_refl _, Int.le_refl _⟩
+/-- THE BRIDGE: the enclosure law of C17's model (Hts.Lemmas.MergeEnc) gives `EncLaw` for the strategy
+carried over to integer offsets -/
+theorem encLaw_lift (s : List Hts.Model.Merge.Chunk → List Hts.Model.Merge.Chunk)
+    (hs : ∀ ms, Hts.Model.Merge.SortedB ms → ∀ m, m ∈ ms → Hts.Model.Merge.enclosedBy (s ms) m) :
+    EncLaw (lift s) := by
+  intro cs hsorted c hc
+  obtain ⟨m', hm', h1, h2⟩ := hs (cs.map toM) (sortedB_map_toM cs hsorted) (toM c) (List.mem_map.2 ⟨c, hc, rfl⟩)
+  refine ⟨ofM m', List.mem_map.2 ⟨m', hm', rfl⟩, ?_⟩
+  unfold Chunk.encloses ofM
+  simp only [toM, vOff_toOff] at h1 h2
+  exact ⟨h1, h2⟩
 
-theorem foldl_max_ge (xs : List Chunk) (e0 : Int) :
-    e0 ≤ xs.foldl (fun r c => if c.e > r then c.e else r) e0 ∧
-      ∀ c, c ∈ xs → c.e ≤ xs.foldl (fun r c => if c.e > r then c.e else r) e0 := by
-  induction xs generalizing e0 with
-  | nil => exact ⟨Int.le_refl _, by intro c hc; cases hc⟩
-  | cons x xs ih =>
-    simp only [List.foldl_cons]
-    by_cases hx : x.e > e0
-    · simp only [hx, if_true]
-      obtain ⟨h1, h2⟩ := ih x.e
-      refine ⟨by omega, ?_⟩
-      intro c hc
-      rcases List.mem_cons.1 hc with rfl | hc
-      · exact h1
-      · exact h2 c hc
-    · simp only [hx, if_false]
-      obtain ⟨h1, h2⟩ := ih e0
-      refine ⟨h1, ?_⟩
-      intro c hc
-      rcases List.mem_cons.1 hc with rfl | hc
-      · omega
-      · exact h2 c hc
-
-theorem encLaw_squash : EncLaw squash := by
-  intro cs hs c hc
-  cases cs with
-  | nil => cases hc
-  | cons x xs =>
-    have hs' := List.pairwise_cons.1 hs
-    obtain ⟨h1, h2⟩ := foldl_max_ge xs x.e
-    refine ⟨⟨x.b, xs.foldl (fun r c => if c.e > r then c.e else r) x.e⟩, List.mem_singleton.2 rfl, ?_⟩
-    unfold Chunk.encloses
-    simp only
-    rcases List.mem_cons.1 hc with rfl | hc
-    · exact ⟨Int.le_refl _, h1⟩
-    · exact ⟨hs'.1 c hc, h2 c hc⟩
+theorem encLaw_adjacent : EncLaw adjacent := encLaw_lift _ Hts.Model.Merge.adjacent_enc
+theorem encLaw_compressor (near : Int) : EncLaw (compressor near) :=
+  encLaw_lift _ (Hts.Model.Merge.compressor_enc near)
+theorem encLaw_squash : EncLaw squash := encLaw_lift _ Hts.Model.Merge.squash_enc
 
 end Local
 
